@@ -127,9 +127,17 @@ func DecodeColor1(x byte) Color {
 
 var dc1Table = [5]byte{0x00, 0x40, 0x80, 0xc0, 0xff}
 
-func Is1(c color.RGBA) bool {
+// is1 reports whether every channel of c holds one of the five values a
+// channel of an opaque 1 byte color can have.
+func is1(c color.RGBA) bool {
 	is1 := func(u uint8) bool { return u&0x3f == 0 || u == 0xff }
 	return is1(c.R) && is1(c.G) && is1(c.B) && is1(c.A)
+}
+
+// Is1 reports whether c can be encoded as a 1 byte color.
+func Is1(c color.RGBA) bool {
+	_, ok := RGBAColor(c).Encode1()
+	return ok
 }
 
 func Is2(c color.RGBA) bool {
@@ -193,7 +201,7 @@ func (c Color) Encode1() (x byte, ok bool) {
 			case color.RGBA{0xc0, 0xc0, 0xc0, 0xc0}:
 				return 125, true
 			}
-		} else if Is1(c.data) {
+		} else if is1(c.data) {
 			r := c.data.R / 0x3f
 			g := c.data.G / 0x3f
 			b := c.data.B / 0x3f
